@@ -52,12 +52,19 @@ def op_configs(tier):
                            ("fixed", dict(pmax=3)), ("optimal", {}), ("nper", {}), ("ensemble", {}), ("holdout", {}),
                            ("rholdout", {}), ("cover", {}), ("combofilter", {})):
                 # operations whose generator draws are permutations of all rows are factorial in the row count
-                Rop = min(R, 6) if op in ("perm", "rholdout", "holdout", "cover", "ensemble", "segr") else R
+                if op in ("perm", "rholdout", "cover", "segr"):
+                    if k >= 24:
+                        continue
+                    Rop = min(R, 7 if k < 4 else 6)
+                elif op in ("holdout", "ensemble"):
+                    Rop = min(R, 8)
+                else:
+                    Rop = R
                 add("%s %s (generated structure, %d rows)" % (op, fam, Rop), op=op, fam=fam, R=Rop, **kw)
     return out
 
 
-N_GENERATED = 16
+N_GENERATED = 64
 
 
 def _plates_of(t, only_unobserved=True):
